@@ -259,6 +259,53 @@ def correspond(ctx, scale):
         failures.append({'key': f'distributed-explicit-seed:spawn:{type(ex).__name__}', 'what': f'2-process gloo run failed: {str(ex)[:300]}', 'case': {'part': 'distributed'}})
     finally:
         shutil.rmtree(dtmp, ignore_errors=True)
+    # re-entrancy: "k depends only on the seed" also when another forward runs in between (threads, nn.DataParallel replicas).  A simulated
+    # context switch: every call the library makes into the PROCESS-GLOBAL python generator (random.seed / randrange / randint / random ...) is
+    # preceded by a complete forward of a second replica with a different explicit seed - the deterministic worst case of a thread switch at
+    # that point.  A private random.Random(seed) instance never reaches these functions, so nothing is injected on the unchanged tree.
+    import random as _random
+    glob_names = ['seed', 'randrange', 'randint', 'random', 'choice', 'getrandbits', 'uniform', 'shuffle', 'sample']
+    for cls in [c for c in classes if not c.startswith('Grouped')]:
+        n_, c_, m_ = 6, 0, 1
+        try:
+            q1, q2 = make(cls, n_, c_, m_), make(cls, n_, c_, m_)
+            table = seed_for[(c_, n_)]
+            pairs = [(table[r1], table[r2]) for r1 in sorted(table) for r2 in sorted(table) if r1 != r2][:: (3 if not ctx.thorough else 1)]
+            for s1, s2 in pairs:
+                alone, _pr = run_one(q1, cls, n_, s1, False)
+                origs = {nm: getattr(_random, nm) for nm in glob_names}
+                state = {'nested': False, 'switches': 0}
+
+                def mk_hook(nm):
+                    def hooked(*a, **k):
+                        if not state['nested']:
+                            state['nested'] = True
+                            state['switches'] += 1
+                            try:
+                                run_one(q2, cls, n_, s2, False)
+                            finally:
+                                state['nested'] = False
+                        return origs[nm](*a, **k)
+                    return hooked
+                st_py = _random.getstate()
+                for nm in glob_names:
+                    setattr(_random, nm, mk_hook(nm))
+                try:
+                    inter, _pr2 = run_one(q1, cls, n_, s1, False)
+                finally:
+                    for nm in glob_names:
+                        setattr(_random, nm, origs[nm])
+                    _random.setstate(st_py)
+                evaluations += 1
+                dist['interleaved_calls'] = dist.get('interleaved_calls', 0) + 1
+                dist['simulated_context_switches'] = dist.get('simulated_context_switches', 0) + state['switches']
+                if inter != alone:
+                    failures.append({'key': f'{cls}:depth-depends-on-interleaved-call', 'what': f'{cls}(n={n_}) seed={s1}: with a second replica\'s forward (seed {s2}) interleaved at the library\'s calls into the '
+                                     f'process-global random generator, the dropped-layer pattern is {inter}, alone it is {alone} (k no longer depends on the call\'s own seed only)',
+                                     'case': dict(cls=cls, n=n_, cutoff=c_, m=m_, seed=s1, other_seed=s2, image=False, train=True, expect_drop=True, interleaved=True)})
+                    break
+        except Exception as ex:
+            failures.append({'key': f'{cls}:interleaved:exception:{type(ex).__name__}', 'what': f'{cls}: {ex!r}', 'case': dict(cls=cls, interleaved=True)})
     # supplied indices (ResidualVQ): dropout must not happen -> output equals the all-layer output
     from vector_quantize_pytorch import ResidualVQ
     for (n, c, m) in cfgs[:3]:
